@@ -194,8 +194,12 @@ func libOpenFile(g *FuncGen, c *ast.CallExpr, callee *types.Func, st *State) []V
 	p := g.ev(c.Args[0], st)
 	g.ev(c.Args[1], st)
 	g.ev(c.Args[2], st)
-	// only the append/create/write-only combination occurs in this repository
+	// the append/create/write-only combination of the loggers, and create+truncate, which is os.Create
 	flagsText := g.exprText(c.Args[1])
+	if strings.Contains(flagsText, "O_TRUNC") && strings.Contains(flagsText, "O_CREATE") && !strings.Contains(flagsText, "O_APPEND") && !strings.Contains(flagsText, "O_EXCL") &&
+		(strings.Contains(flagsText, "O_WRONLY") || strings.Contains(flagsText, "O_RDWR")) {
+		return libCreate(g, c, callee, st)
+	}
 	if !(strings.Contains(flagsText, "O_APPEND") && strings.Contains(flagsText, "O_CREATE")) {
 		g.fail("os.OpenFile with flags %s is not modelled", flagsText)
 	}
